@@ -2,63 +2,44 @@ import HeimdallModel.Model.CacheKey
 /-!
 # C11 — what a fresh evaluation reads (hand-written from the Go code, validated by the correspondence run)
 
-For every caching mechanism: the typed sources a fresh evaluation (rendering the request, calling the remote system,
-parsing the response) depends on.  Sources are named by the Go expression the key function writes, *normalised* by the
-extractor so that renaming does not matter: `recv` is the receiver, `arg<i>` the i-th parameter of the key function, a
-local variable is replaced by the expression defining it, the parameter of a function literal is `_`.
+For every caching mechanism: the typed inputs a fresh evaluation (rendering the request, calling the remote system,
+parsing the response) depends on.  Inputs are named by what they *are* (`payload`, `values`, `subject`, …), not by how the
+Go code happens to call them: the extractor finds the structure of every key function (which writes, in which order),
+and the check binds every write to an input by behaviour — the real function is evaluated for probe configurations with
+distinctive values and the assignment write ↦ input is the one for which SHA-256 of the written bytes is the real key
+(`tools/c11_bind.py`).  Renaming, re-packaging of parameters into a struct, moving functions between files do not
+change the generated module.
 
-| key function | parameters |
-|---|---|
-| `remoteAuthorizer.calculateCacheKey(sub, values, payload)` | `arg0` subject, `arg1` rendered values, `arg2` rendered payload |
-| `genericContextualizer.calculateCacheKey(ctx, sub, values, payload)` | `arg0` context, `arg1` subject, `arg2` values, `arg3` payload |
-| `genericAuthenticator.calculateCacheKey(ctx, reference)` | `arg0` context, `arg1` authentication data |
-| `oauth2IntrospectionAuthenticator.calculateCacheKey(ep, templatedURL, token)` | `arg0` endpoint, `arg1` rendered url, `arg2` token |
-| `jwtAuthenticator.calculateCacheKey(ep, renderedURL, reference)` | `arg0` endpoint, `arg1` rendered url, `arg2` key id |
-| `jwtFinalizer.calculateCacheKey(ctx, sub)` | `arg0` context, `arg1` subject |
-| `httpcache.cacheKey(req)` | `arg0` the request as it is sent (after `Endpoint.CreateRequest` and `AuthenticationStrategy.Apply`) |
-| `template.New(val)` | `arg0` template text |
-
-`recv.id` stands for the whole prototype configuration of the mechanism instance (endpoint, payload template, subject
+`id` stands for the whole prototype configuration of the mechanism instance (endpoint, payload template, subject
 mapping, …): rule-level overrides can only change what is listed separately.  Rule-level *validation* (assertions,
 expressions) is not listed: it is repeated on every cache hit (`rechecked`).
 -/
 namespace Heimdall.CacheKey
 
 def deps : String → List Dep
-  | "genericAuthenticator" =>
-      [.bytes "recv.id", .bytes "arg1", .list "arg0.Request().Header(_) for recv.fwdHeaders",
-       .list "arg0.Request().Cookie(_) for recv.fwdCookies"]
-  | "introspection" => [.bytes "recv.id", .bytes "arg1", .bytes "arg2"]
-  | "jwtAuthenticator" => [.bytes "recv.id", .bytes "arg1", .bytes "arg2"]
-  | "remoteAuthorizer" => [.bytes "recv.id", .bytes "arg2", .bytes "arg0.Hash()", .kvs "arg1"]
+  | "genericAuthenticator" => [.bytes "id", .bytes "credential", .list "fwdHeaderValues", .list "fwdCookieValues"]
+  | "introspection" => [.bytes "id", .bytes "url", .bytes "token"]
+  | "jwtAuthenticator" => [.bytes "id", .bytes "url", .bytes "keyID"]
+  | "remoteAuthorizer" => [.bytes "id", .bytes "payload", .bytes "subject", .kvs "values"]
   | "genericContextualizer" =>
-      [.bytes "recv.id", .list "recv.fwdHeaders", .list "arg0.Request().Header(_) for recv.fwdHeaders",
-       .list "recv.fwdCookies", .list "arg0.Request().Cookie(_) for recv.fwdCookies", .bytes "arg3",
-       .bytes "arg1.Hash()", .kvs "arg2"]
-  | "jwtFinalizer" =>
-      [.bytes "recv.signer.Hash()", .bytes "recv.claims.Hash() if recv.claims != nil", .num "recv.ttl",
-       .bytes "arg1.Hash()", .bytes "json.Marshal(arg0.Outputs())"]
-  | "clientCredentialsKey" =>
-      [.bytes "recv.ClientID", .bytes "recv.ClientSecret", .bytes "recv.TokenURL", .list "recv.Scopes"]
+      [.bytes "id", .list "fwdHeaders", .list "fwdHeaderValues", .list "fwdCookies", .list "fwdCookieValues",
+       .bytes "payload", .bytes "subject", .kvs "values"]
+  | "jwtFinalizer" => [.bytes "signer", .bytes "claims", .num "ttl", .bytes "subject", .bytes "outputs"]
+  | "clientCredentialsKey" => [.bytes "clientID", .bytes "clientSecret", .bytes "tokenURL", .list "scopes"]
   -- everything `Endpoint.CreateRequest` and `AuthenticationStrategy.Apply` put on the wire of a request without a
   -- body: the url (api key `in: query`), the method, all header fields (endpoint headers rendered for the request,
   -- forwarded headers, `Authorization`, api keys, cookies)
-  | "httpCache" => [.bytes "arg0.URL.String()", .bytes "arg0.Method", .kvs "headerFields(arg0.Header)"]
+  | "httpCache" => [.bytes "url", .bytes "method", .kvs "headers"]
   -- nested digests: the object that is hashed
-  | "subject" => [.bytes "json.Marshal(recv)"]
-  | "template" => [.bytes "arg0"]
-  | "jwtSigner" =>
-      [.bytes "recv.jwk.KeyID", .bytes "recv.jwk.Algorithm", .bytes "recv.iss", .bytes "recv.jwk.Thumbprint(crypto.SHA256)"]
-  | "endpoint" =>
-      [.bytes "recv.URL", .bytes "recv.Method", .kvs "recv.Headers",
-       .opt "recv.AuthStrategy != nil" (.bytes "recv.AuthStrategy.Hash()")]
-  | "apiKey" => [.bytes "recv.In", .bytes "recv.Name", .bytes "recv.Value"]
-  | "basicAuth" => [.bytes "recv.User", .bytes "recv.Password"]
+  | "subject" => [.bytes "json"]
+  | "template" => [.bytes "text"]
+  | "jwtSigner" => [.bytes "keyID", .bytes "algorithm", .bytes "issuer", .bytes "thumbprint"]
+  | "endpoint" => [.bytes "url", .bytes "method", .kvs "headers", .opt "authStrategy?" (.bytes "authStrategy")]
+  | "apiKey" => [.bytes "in", .bytes "name", .bytes "value"]
+  | "basicAuth" => [.bytes "user", .bytes "password"]
   | "httpMessageSignatures" =>
-      [.bytes "recv.Label", .list "recv.Components", .bytes "u64 *recv.TTL", .bytes "recv.Signer.Name",
-       .bytes "recv.Signer.KeyID"]
-  | "clientCredentialsHash" =>
-      [.bytes "recv.ClientID", .bytes "recv.ClientSecret", .bytes "recv.TokenURL", .list "recv.Scopes"]
+      [.bytes "label", .list "components", .bytes "ttlBytes", .bytes "signerName", .bytes "keyID"]
+  | "clientCredentialsHash" => [.bytes "clientID", .bytes "clientSecret", .bytes "tokenURL", .list "scopes"]
   | _ => []
 
 /-- the key functions whose result is used as key of the (shared) cache -/
@@ -110,16 +91,15 @@ executed: the session lifespan is asserted exactly if the mechanism is configure
 def validatedBeforeStored : List (String × String) :=
   [("jwtAuthenticator", "validateJWK"), ("genericAuthenticator", "Assert?recv.sessionLifespanConf != nil")]
 
-/-- the functions that may use the cache of the request context -/
+/-- the types (package : type) that may use the cache of the request context -/
 def knownCacheSites : List String :=
-  ["internal/httpcache/round_tripper.go:RoundTripper.cachedResponse",
-   "internal/httpcache/round_tripper.go:RoundTripper.cacheResponse",
-   "internal/rules/mechanisms/authenticators/generic_authenticator.go:genericAuthenticator.getSubjectInformation",
-   "internal/rules/mechanisms/authenticators/jwt_authenticator.go:jwtAuthenticator.getKey",
-   "internal/rules/mechanisms/authenticators/oauth2_introspection_authenticator.go:oauth2IntrospectionAuthenticator.getSubjectInformation",
-   "internal/rules/mechanisms/authorizers/remote_authorizer.go:remoteAuthorizer.Execute",
-   "internal/rules/mechanisms/contextualizers/generic_contextualizer.go:genericContextualizer.Execute",
-   "internal/rules/mechanisms/finalizers/jwt_finalizer.go:jwtFinalizer.Execute",
-   "internal/rules/oauth2/clientcredentials/clientcredentials.go:Config.Token"]
+  ["internal/httpcache:RoundTripper",
+   "internal/rules/mechanisms/authenticators:genericAuthenticator",
+   "internal/rules/mechanisms/authenticators:jwtAuthenticator",
+   "internal/rules/mechanisms/authenticators:oauth2IntrospectionAuthenticator",
+   "internal/rules/mechanisms/authorizers:remoteAuthorizer",
+   "internal/rules/mechanisms/contextualizers:genericContextualizer",
+   "internal/rules/mechanisms/finalizers:jwtFinalizer",
+   "internal/rules/oauth2/clientcredentials:Config"]
 
 end Heimdall.CacheKey
